@@ -1238,8 +1238,10 @@ _lookup(LB* self,
         return NULL;
 
     cache = _getcache(self, provided, name);
-    if (cache == NULL)
+    if (cache == NULL) {
+        Py_DECREF(required);
         return NULL;
+    }
 
     if (PyTuple_GET_SIZE(required) == 1)
         key = PyTuple_GET_ITEM(required, 0);
@@ -1250,13 +1252,19 @@ _lookup(LB* self,
     if (result == NULL) {
         int status;
 
+        /* The call below runs arbitrary Python code, which can clear our
+           caches (directly, or by letting another thread run). Own the
+           cache dict so that we store into a live (if detached) object. */
+        Py_INCREF(cache);
         result = PyObject_CallMethodObjArgs(
           OBJECT(self), str_uncached_lookup, required, provided, name, NULL);
         if (result == NULL) {
+            Py_DECREF(cache);
             Py_DECREF(required);
             return NULL;
         }
         status = PyDict_SetItem(cache, key, result);
+        Py_DECREF(cache);
         Py_DECREF(required);
         if (status < 0) {
             Py_DECREF(result);
@@ -1499,23 +1507,35 @@ _lookupAll(LB* self, PyObject* required, PyObject* provided)
     if (required == NULL)
         return NULL;
 
-    ASSURE_DICT(self->_mcache);
+    if (self->_mcache == NULL) {
+        self->_mcache = PyDict_New();
+        if (self->_mcache == NULL) {
+            Py_DECREF(required);
+            return NULL;
+        }
+    }
 
     cache = _subcache(self->_mcache, provided);
-    if (cache == NULL)
+    if (cache == NULL) {
+        Py_DECREF(required);
         return NULL;
+    }
 
     result = PyDict_GetItem(cache, required);
     if (result == NULL) {
         int status;
 
+        /* See note in _lookup: own the cache dict across the call. */
+        Py_INCREF(cache);
         result = PyObject_CallMethodObjArgs(
           OBJECT(self), str_uncached_lookupAll, required, provided, NULL);
         if (result == NULL) {
+            Py_DECREF(cache);
             Py_DECREF(required);
             return NULL;
         }
         status = PyDict_SetItem(cache, required, result);
+        Py_DECREF(cache);
         Py_DECREF(required);
         if (status < 0) {
             Py_DECREF(result);
@@ -1567,23 +1587,35 @@ _subscriptions(LB* self, PyObject* required, PyObject* provided)
     if (required == NULL)
         return NULL;
 
-    ASSURE_DICT(self->_scache);
+    if (self->_scache == NULL) {
+        self->_scache = PyDict_New();
+        if (self->_scache == NULL) {
+            Py_DECREF(required);
+            return NULL;
+        }
+    }
 
     cache = _subcache(self->_scache, provided);
-    if (cache == NULL)
+    if (cache == NULL) {
+        Py_DECREF(required);
         return NULL;
+    }
 
     result = PyDict_GetItem(cache, required);
     if (result == NULL) {
         int status;
 
+        /* See note in _lookup: own the cache dict across the call. */
+        Py_INCREF(cache);
         result = PyObject_CallMethodObjArgs(
           OBJECT(self), str_uncached_subscriptions, required, provided, NULL);
         if (result == NULL) {
+            Py_DECREF(cache);
             Py_DECREF(required);
             return NULL;
         }
         status = PyDict_SetItem(cache, required, result);
+        Py_DECREF(cache);
         Py_DECREF(required);
         if (status < 0) {
             Py_DECREF(result);
@@ -1794,14 +1826,24 @@ _verify(VB* self)
 
     if (self->_verify_ro != NULL && self->_verify_generations != NULL) {
         PyObject* generations;
+        PyObject* ro;
         int changed;
 
-        generations = _generations_tuple(self->_verify_ro);
+        /* Fetching ``_generation`` can run arbitrary Python code, which
+           can call ``changed()`` and so replace our snapshots: own the
+           one we are iterating, and look at the other one afterwards. */
+        ro = self->_verify_ro;
+        Py_INCREF(ro);
+        generations = _generations_tuple(ro);
+        Py_DECREF(ro);
         if (generations == NULL)
             return -1;
 
-        changed = PyObject_RichCompareBool(
-          self->_verify_generations, generations, Py_NE);
+        if (self->_verify_generations == NULL)
+            changed = 1;
+        else
+            changed = PyObject_RichCompareBool(
+              self->_verify_generations, generations, Py_NE);
         Py_DECREF(generations);
         if (changed == -1)
             return -1;
